@@ -262,7 +262,9 @@ def run_job(job: Job, builder: Builder, work: str):
         res["failed"].append({"id": p["id"], "desc": d, "loc": p["loc"], "func": p["func"]})
     res["obligations"] = len([p for p in parsed["props"] if not p["desc"].startswith("WITNESS")])
     res["obligations_unsat"] = n_ok
-    if res.get("other_status") or parsed["status"] not in ("success", "failure"):
+    real_failures = res["failed"] or (job.termination_is_property and res["unwinding_failed"])
+    if (res.get("other_status") or parsed["status"] not in ("success", "failure")) and not real_failures:
+        # (a refuted obligation is a refuted obligation even if the solver left others undecided: SAT takes precedence over "not decided")
         res["verdict"] = "not_decided"; res["detail"] = f"cbmc status {parsed['status']}; undecided obligations: {len(res.get('other_status', []))} (solver error / out of memory)"
     elif res["no_body"]:
         res["verdict"] = "broken"; res["detail"] = "functions without body reached: " + ",".join(res["no_body"])
